@@ -19,7 +19,7 @@ def fl(x):
 
 def run(tier, seed):
     V = common.Verdict("C15", tier, seed)
-    configs = ["K17"] if tier == "quick" else ["K17", "K20"]
+    configs = ["K17", "K20"] if tier == "quick" else ["K17", "K20"]
     for cfg in configs:
         try:
             ctx = lib.Ctx(cfg, EXTRA, lowbits_canon=True)
